@@ -75,6 +75,8 @@ def main():
     if os.path.exists(kf):
         import facts as _facts
         absorbed = _facts.absorb_new_functions(F, json.load(open(kf)))
+    import rules as _rules
+    _rules.load_vanished(F, os.path.join(VERIF, "baseline"))
     mod = load_rules(prop)
     ctx = Ctx(F, prop, tier)
     ctx.facts_dir = fdir
